@@ -13,7 +13,7 @@ from . import core
 from .c06 import words_selftest
 
 C05_MON = {"FirstFrame", "LaterFrames", "StackPointerProgress", "ScanFrame", "ModuleFunctionCover", "panic"}
-WALK_ACTIONS = ["StepCfi", "StepFp", "StepScan", "StopNoFrame", "StopRejected"]
+WALK_ACTIONS = ["StepCfi", "StepFp", "StepScan", "StopNoFrame", "StopRejected", "StopBound"]
 
 
 def walk_verdicts(ctx, trace, name):
